@@ -54,6 +54,8 @@ fn doc_for(b: &J, arrs: &[Vec<J>]) -> J {
         ("L".into(), J::Arr(l)),
         ("LO".into(), J::Arr(lo)),
         ("X".into(), J::Arr(x)),
+        // float-only arrays (no int/float twins: zone U5 is not entered)
+        ("F".into(), J::Arr(vec![J::Arr(vec![J::float(1.5), J::float(2.0)]), J::Arr(vec![J::float(100.0)]), J::Arr(vec![J::float(2.5)]), J::Arr(vec![]), J::Arr(vec![J::float(2.0), J::float(2.0), J::float(100.0)])])),
         ("num".into(), J::int(1)),
         ("str".into(), J::str("a")),
         ("obj".into(), J::Obj(vec![("k".into(), J::int(1))])),
@@ -82,6 +84,10 @@ fn templates() -> Vec<String> {
         t.push(format!("$.L[?{}(1, @)]", f));
         t.push(format!("$.L[?{}('a', @)]", f));
         t.push(format!("$.L[?{}(null, @)]", f));
+        t.push(format!("$.F[?{}(2.0, @)]", f));
+        t.push(format!("$.F[?{}(1e2, @)]", f));
+        t.push(format!("$.F[?{}(1.5, @)]", f));
+        t.push(format!("$.F[?!{}(2.0, @)]", f));
         t.push(format!("$.L[?{}(@, $.B) && length(@) > 1]", f));
         t.push(format!("$.L[?{}(@, $.B) || length(@) == 0]", f));
         t.push(format!("$.X[?{}(@, $.B) || @ == 2]", f));
